@@ -347,10 +347,10 @@ func TestVerif_C01_Session(t *testing.T) {
 func TestVerif_C01_LongSession(t *testing.T) {
 	m := mon.New("C01", "longsession")
 	defer m.Finish(t)
-	m.Rule("longsession: single connections carrying 70 000 (quick, 2 sessions) / 300 000 (thorough, 6 sessions) small messages in one direction on 1-5 chunk streams, " +
-		"timestamps advancing through 2^24 and 2^31-1, a Set Chunk Size every few thousand messages, read back in batches of 1..500; thorough adds one session " +
+	m.Rule("longsession: single connections carrying 70 000 (quick, 8 sessions) / 300 000 (thorough, 16 sessions) small messages in one direction on 1-5 chunk streams, " +
+		"timestamps advancing through 2^24 and 2^31-1, a Set Chunk Size every few thousand messages, around message 2^8 and 2^16 a chunk size far from the default (4096 / 17) and payloads above 128 bytes, read back in batches of 1..500; thorough adds one session " +
 		"moving more than 2^32 payload bytes (16 MiB messages at chunk size 2^24); distinct = message type x length class x chunk-size class per 10 000 messages")
-	nsess := m.N(2, 6)
+	nsess := m.N(8, 16)
 	per := m.N(70000, 300000)
 	m.Require("messages_read_back", int64(nsess*per))
 	mon.Parallel(nsess, func(w, i int) {
@@ -391,8 +391,14 @@ func TestVerif_C01_LongSession(t *testing.T) {
 			}
 			batch := r.Range(1, 500)
 			for n := 0; n < per; n++ {
-				if n > 0 && n%r.Range(2000, 9000) == 0 {
+				// near the counts where 8- and 16-bit counters wrap the configuration is made sensitive on purpose: a chunk size
+				// far from the default (large in even sessions, small in odd ones) and payloads of several chunks / above 128 bytes
+				nearWrap := (n >= 256-48 && n <= 256+48) || (n >= 65536-48 && n <= 65536+48)
+				if (n > 0 && n%r.Range(2000, 9000) == 0) || n == 256-48 || n == 65536-48 {
 					v := verifGenChunkSize(r)
+					if nearWrap {
+						v = uint32([]int{4096, 17}[i%2])
+					}
 					pkt := NewSetChunkSize()
 					pkt.ChunkSize = v
 					if err := pa.WritePacket(pkt, 0); err != nil {
@@ -417,7 +423,11 @@ func TestVerif_C01_LongSession(t *testing.T) {
 				if ts[k] > 0x7FFFFFFF {
 					ts[k] = 0x7FFFFFFF
 				}
-				vm := verifMsg{Type: uint8(r.Pick(8, 9, 18, 20, 15)), StreamID: uint32(r.Pick(0, 1, 1, 7)), Timestamp: ts[k], Cid: cids[k], Payload: r.Shaped(r.Pick(1, 2, 7, 40, 127, 128, 129, 300))} // payloads of at least one byte: the statement's domain (DESIGN 4.1)
+				plen := r.Pick(1, 2, 7, 40, 127, 128, 129, 300) // payloads of at least one byte: the statement's domain (DESIGN 4.1)
+				if nearWrap {
+					plen = r.Pick(129, 300, 600)
+				}
+				vm := verifMsg{Type: uint8(r.Pick(8, 9, 18, 20, 15)), StreamID: uint32(r.Pick(0, 1, 1, 7)), Timestamp: ts[k], Cid: cids[k], Payload: r.Shaped(plen)}
 				if err := pa.WriteMessage(verifToLib(vm)); err != nil {
 					m.Violationf("c01:write-error:long-session", rep, "message %d: %v", n, err)
 					return
